@@ -25,20 +25,24 @@ MANIFEST_ENTRY = {
     "text": "proof, partial. THEOREMS (all closed under the global context) over executable models of lib/allocators: for ALL call histories with sizes 0..2^64-1 "
             "the arena, stack, pool and heap allocators never trip a check on valid calls (arena, heap) and keep the live blocks in bounds, aligned and "
             "pairwise disjoint; stack LIFO restores its offsets; the pool's free list and live chunks partition the buffer; the heap keeps tiling, exact bins, "
-            "live = used chunks, no two adjacent free chunks, reports invalid frees, and is the fresh heap again once everything is released; realloc keeps "
+            "live = used chunks, no two adjacent free chunks, and is the fresh heap again once everything is released; realloc keeps "
             "min(old,new) bytes and alloc0/realloc0 zero exactly the new bytes (arena, heap). The heap theorems are stated on an abstract chunk-list model AND "
             "transferred to the memory-level model (header words, prev_adj/next/prev links, bins, NODE_COOKIE marks) by a proved refinement: every operation "
-            "of the memory-level model simulates the abstract one (C11_heap_refinement). The derived operations of Allocator_implement_interface "
-            "(alloc0/realloc0/x*/span*/new/delete) are modelled generically over the primitives with theorems that they are the stated primitive calls; "
-            "AlignedAllocator's alignment arithmetic is proved. Three open findings are refuted/partial pairs: span count*#T wrap, AlignedAllocator's request "
-            "size wrap, and stale NODE_COOKIEs after heap deallocall (the 'reports a double free' clause is FALSE of the code for pointers of a previous "
-            "generation; proved only for pointers to headers of free chunks). TESTING ONLY (shadow-map oracle on the real allocators): heap/stack/pool payload "
-            "contents at the memory level, AlignedAllocator over whole histories, the derived operations on the real code, release builds. NOT COVERED: "
-            "GeneralAllocator (libc) and GCAllocator (property C10), both named in the statement. Models are tied to the code by regenerated constants and "
-            "line-by-line correspondence of offsets and of the complete internal state.",
+            "of the memory-level model simulates the abstract one (C11_heap_refinement). The refinement carries a mark invariant (no 16-aligned address "
+            "other than a chunk header or the end node carries the used mark), from which: after any history dealloc of ANY non-nil pointer that is not a "
+            "live block panics - double frees, pointers of an earlier generation, pointers into payloads - except the one address just past the end node "
+            "(C11_heap_mem_invalid_free_reported_partial; the exception is real, _refuted, OPEN FINDING: dealloc(buffer+SIZE) is accepted when the end node "
+            "is 16-aligned and corrupts the heap). The derived operations of Allocator_implement_interface (alloc0/realloc0/x*/span*/new/delete) are modelled "
+            "generically over the primitives with theorems that they are the stated primitive calls; span counts and AlignedAllocator requests never wrap "
+            "(C11_arena_span_in, C11_aligned_fits: full strength after the repairs 942989e, 532034f). TESTING ONLY (shadow-map oracle on the real allocators): "
+            "heap/stack/pool payload contents at the memory level, AlignedAllocator over whole histories, the derived operations on the real code, release builds. "
+            "NOT COVERED: GeneralAllocator (libc) and GCAllocator (property C10), both named in the statement. Models are tied to the code by regenerated "
+            "constants and line-by-line correspondence of offsets and of the complete internal state.",
     "note": "trusted: Coq 8.16.1 kernel; the hand-written models (tied to /repo by regenerated constants and by differential correspondence of offsets and of the "
             "complete internal state after every operation, which is testing, not proof); extraction with ExtrOcamlBasic; OCaml/Nelua/Python harness glue. "
-            "Payload bytes are byte functions separate from the header memory; GeneralAllocator (libc) and GCAllocator (C10) are outside; release builds are not exercised.",
+            "Payload bytes are byte functions separate from the header memory; the header memory is word-addressed (faithful for 8-aligned accesses; the end node of a "
+            "HeapAllocator whose SIZE is not a multiple of 8 is accessed unaligned by the real code); GeneralAllocator (libc) and GCAllocator (C10) are outside; "
+            "release builds are not exercised.",
     "technique": "machine-checked proof in Coq over executable models (incl. a proved refinement memory-level -> abstract heap) + extracted-model/implementation "
                  "correspondence on interactive histories + shadow-map property oracle",
 }
@@ -49,7 +53,7 @@ THEOREM_CLASSES = {
     "C11_pool_safe": "main", "C11_pool_total": "main",
     "C11_heap_safe": "main", "C11_heap_no_adjacent_free": "main", "C11_heap_release_all_restores": "main",
     "C11_heap_refinement": "main", "C11_heap_mem_safe": "corollary",
-    "C11_heap_mem_invalid_free_reported_partial": "main",
+    "C11_heap_mem_invalid_free_reported_partial": "main", "C11_heap_mem_invalid_free_reported_refuted": "refutation",
     "C11_heap_realloc_preserves": "main", "C11_heap_alloc0_zeroes": "definitional", "C11_heap_realloc0_zeroes": "definitional",
     "C11_iface_alloc0": "definitional", "C11_iface_xalloc": "definitional", "C11_iface_xrealloc": "definitional",
     "C11_iface_realloc0": "definitional", "C11_iface_spanalloc": "main", "C11_iface_spanrealloc": "definitional",
@@ -60,7 +64,7 @@ THEOREM_CLASSES = {
 ALLOWED_AXIOMS = []
 TRUSTED_BASE = [
     "coqc 8.16.1 kernel (vm_compute used for parameter facts and refutation witnesses; no native_compute)",
-    "no axioms: every theorem of coq/C11/Properties.v is 'Closed under the global context'; models mirror lib/allocators after the repairs 484ce8f, 961d315, 942c78c, b8d094a",
+    "no axioms: every theorem of coq/C11/Properties.v is 'Closed under the global context'; models mirror lib/allocators after the repairs 484ce8f, 961d315, 942c78c, b8d094a, 942989e, 532034f, 9ef0717",
     "translator checks/C11.py:gen (regex scrape of ALLOC_ALIGN/MIN_ALLOC_SIZE/BIN_COUNT/BIN_MAX_LOOKUPS/NODE_COOKIE/HeapNode fields/get_bin_index constants in heap.nelua, StackAllocHeader + static asserts in stack.nelua, default ALIGN in arena.nelua; typedefs.maxalign and pointer size probed through the real compiler)",
     "extraction: Require Extraction + ExtrOcamlBasic only; Z/positive/nat stay Coq inductives; no Extract Constant of our own",
     "ocaml/zutil.ml + coq/C11/driver.ml (line protocol, handle table, closures handing an instance's primitives to the extracted interface wrappers, printing of the model state), harness/C11/driver.nelua (calls the allocators, keeps the handle table, prints offsets and internal state read through the allocator records), OCaml 4.13.1, gcc, the Nelua compiler itself (the driver is compiled by it, default checked build)",
@@ -70,7 +74,8 @@ TRUSTED_BASE = [
 ]
 ASSUMPTIONS = [
     "the buffer is a real object: base > 0 and base + SIZE + ALIGN + header (+ MIN_ALLOC_SIZE for the heap) <= 2^64 (no address wrap)",
-    "clients write only inside blocks they own (frame condition of the stack/pool theorems; the heap's memory-level model has no client writes: a stale pointer into a payload can fool the cookie test, so C11_heap_invalid_free_reported transfers to the memory level for pointers to chunk headers only, C11_heap_mem_free_header_reported)",
+    "clients write only inside blocks they own (frame condition of the stack/pool theorems). The heap's memory-level model has no client writes: C11_heap_mem_invalid_free_reported_partial says that the ALLOCATOR never leaves a used mark (next=1, prev=NODE_COOKIE) anywhere but at chunk headers and the end node; a client that writes that 16-byte pattern into its own payload can still forge a header (inherent to a cookie test)",
+    "the heap's header memory is word-addressed (address -> 64-bit word): faithful when all header accesses are 8-aligned, i.e. when SIZE minus the alignment offset of the buffer is a multiple of 8; otherwise the real end node is accessed unaligned (instances h0..h5 of the harness have 8-aligned end nodes)",
     "correspondence is differential testing over generated histories, not a proof that model = code",
     "checked (default) build: check()/bounds checks abort; release builds are not exercised",
 ]
@@ -1102,13 +1107,13 @@ def correspond(ctx):
 
 
 UNPROVED = [
-    "memory level: 'the allocator never writes inside a live payload' is not a separate theorem (the refinement constrains header words; payload bytes live in a separate byte function)",
-    "the 'reports a double free' clause: false of the code after deallocall (C11_heap_mem_invalid_free_reported_refuted, known finding); proved at the memory level only for pointers to headers of free chunks (_partial); a global 'cookies sit only at used headers' invariant for histories without deallocall is not proved",
+    "heap_mem_invalid_free_reported_full (SpecHeap.v: dealloc of EVERY non-live non-nil pointer panics) is FALSE of the code: the pointer just past the end node is accepted (C11_heap_mem_invalid_free_reported_refuted, open finding, repair proposed in harness/C11/proposed_repairs/04-heap-end-sentinel-free.diff); proved for every other pointer (_partial). The same holds for realloc of such a pointer (same get_ptr_node test; not stated separately)",
+    "memory level: 'the allocator never writes inside a live payload' is not a separate theorem (the refinement constrains header words and used marks; payload bytes live in a separate byte function)",
     "pool: pool_good has no alignment clause beyond 'is a chunk start' (the alignment of T inside the chunk union is the compiler's layout, property C03)",
-    "AlignedAllocator: alignment arithmetic and single-step alloc spec are proved, a history-level safety theorem (headers of live aligned blocks are never overwritten) is not; its default realloc's memory.move is not a contents theorem",
+    "AlignedAllocator: alignment arithmetic, single-step alloc spec and 'fits in a fresh good block of the arena in any reachable arena state' are proved; a history-level theorem over aligned alloc/dealloc/realloc (headers of live aligned blocks are never overwritten) is not; its default realloc's memory.move is not a contents theorem",
     "stack/pool: realloc never moves a block (it returns p or nil), contents preservation is therefore not stated separately",
     "GeneralAllocator (libc) and GCAllocator (C10) are outside the Coq models; release builds (checks compiled out) are not exercised",
-    "get_bin_index_range is proved with the literal constants 24/3/28: a BIN_COUNT retune needs that lemma re-proved",
+    "the constants are literals in the proofs (NODE = 32, ALLOC_ALIGN = 16, BIN_COUNT = 24, get_bin_index_range with 24/3/28): Gen.v regenerates them and the build fails if they change, but a retune needs the proofs revisited",
 ]
 
 
